@@ -114,14 +114,15 @@ End Spec.
 (** ---- parsed texts ---- *)
 Definition empty_node (t : ttree) : bool := is_empty (t_txt t).
 
-(** the lines of a flat pair list: EOI pairs are skipped by every consumer, a CMD pair contributes its
-    (trimmed) text; anything else is not flat *)
+(** the lines of a flat pair list: EOI pairs are skipped by every consumer, and so are CMD pairs with empty
+    text (blank lines); any other CMD pair contributes its (trimmed) text; anything else is not flat *)
 Fixpoint skel (ks : list ttree) : option (list str) :=
   match ks with
   | [] => Some []
   | k :: r =>
       if t_rule k =? L_EOI then skel r
-      else if t_rule k =? L_CMD then option_map (cons (t_txt k)) (skel r)
+      else if t_rule k =? L_CMD then
+        (if is_empty (t_txt k) then skel r else option_map (cons (t_txt k)) (skel r))
       else None
   end.
 
@@ -145,9 +146,10 @@ Proof.
       change (L_EOI =? L_EXP_FOR) with false. change (L_EOI =? L_EXP_WHILE) with false.
       apply IH, H.
     + destruct (r =? L_CMD) eqn:E2; [|discriminate H]. apply N.eqb_eq in E2. subst r.
+      destruct (is_empty x) eqn:Ex.
+      { cbn [exp_loop t_txt]. rewrite Ex. apply IH, H. }
       destruct (skel ks) as [ls|] eqn:S; [|discriminate H]. injection H as <-.
-      cbn [map app exp_loop cmd_node t_txt t_rule].
-      destruct (is_empty x); [apply IH; reflexivity|]. rewrite N.eqb_refl.
+      cbn [map app exp_loop cmd_node t_txt t_rule]. rewrite Ex, N.eqb_refl.
       destruct (str_eqb x kw_continue); [destruct il; [reflexivity | apply IH; reflexivity]|].
       destruct (str_eqb x kw_break); [destruct il; [reflexivity | apply IH; reflexivity]|].
       destruct (rl w x) as [w1 crs].
